@@ -87,6 +87,7 @@ WORK_MODULES = [
     "pgo/test/files/general/IndexingLocals.tla.gotests", "pgo/test/files/general/NonDetExploration.tla.gotests",
     "pgo/test/files/general/ProcedureSpaghetti.tla.gotests", "pgo/test/files/general/bug_119.tla.gotests",
     "pgo/test/files/general/hello.tla.gotests", "pgo/test/files/general/ExprTests.tla.gotests",
+    "pgo/test/files/general/bug2_124.tla.gotests",
 ]
 
 
